@@ -13,7 +13,7 @@ EXPLANATION = ('Structural necessary conditions of C10: (R10.1) every record tha
                'sync_data, and flush requests are answered only after it; (R10.5) single ordered writer; (R10.6) restore keeps outcomes, does not '
                'resubmit completed tasks and counts each restored outcome once.')
 NOT_DECIDED = ['equality of restored and pre-crash state over all histories and cut points (relational, value-level)']
-RELATED = {'C03': ['R03.5'], 'C06': ['R06.5'], 'C07': ['R07.6', 'R07.7', 'R07.8']}
+RELATED = {'C03': ['R03.5'], 'C06': ['R06.5', 'R06.8'], 'C07': ['R07.6', 'R07.7', 'R07.8'], 'C11': ['R11.1', 'R11.2']}
 ASSUMPTIONS = ['bincode framing: a record is either fully present or detected as UnexpectedEof']
 OPTION = 'core::option::Option'
 CLIENT = HQ + 'client::'
@@ -71,6 +71,23 @@ def run(ctx):
         ctx.ob('R10.9', f'{v_}|persisted', 'StreamAndPersist' in modes[v_],
                f'{v_} is replayed into {sorted(fields_)} on restart, so its emitter must persist it (observed modes {sorted(modes[v_])})', None)
     ctx.floor('R10.9', npers, 8, 'replayed event kinds with an emitter')
+    # ---- R10.10 a restart does not journal again what it replays
+    ctx.rule('R10.10', 'restore is silent: re-creating an object from the journal emits no creation record (create_queue announces AllocationQueueCreated only for a new queue, i.e. queue_id == None; restore_jobs_and_queues reaches no job-creation emitter) - a second record of the same object breaks the next restart')
+    PROC_ = HQ + 'autoalloc::process::'
+    cq_ = prog.body(PROC_ + 'create_queue')
+    em_ = cq_.call_blocks(STREAMER + 'on_allocation_queue_created')
+    ctx.require(em_, 'R10.10: create_queue does not announce new queues')
+    e_none, _c = guard_edges(cq_, 'core::option::Option::is_none', True)
+    okn = bool(e_none) and all(dominated_by_edges(cq_, x, e_none, False) for x in em_)
+    if not okn:
+        for k_, d_ in scrutinees(cq_, OPTION).items():
+            if d_.get('root_is_arg') and all(set(variants_at(cq_, OPTION, x, k_) or ()) == {'None'} for x in em_):
+                okn = True
+    ctx.ob('R10.10', 'create_queue|announces only a new queue', okn, 'on_allocation_queue_created is emitted only under queue_id.is_none() (a queue re-created while restoring the journal is already recorded there)', cq_.loc(em_[0]))
+    rjq = prog.body(RESTORE + 'StateRestorer::restore_jobs_and_queues')
+    mc_ = prog.may_call(rjq.path)
+    bad_em = sorted(x.split('::')[-1] for x in mc_ if x.startswith(STREAMER + 'on_job_') or x == STREAMER + 'on_allocation_queue_created')
+    ctx.ob('R10.10', 'restore_jobs_and_queues|emits no creation record', not bad_em, f'restore_jobs_and_queues reaches no job/queue creation emitter (observed {bad_em})', rjq.loc())
     lef = prog.body(LEF)
     # ---- R10.1
     ws = job_table.job_state_writes(prog)
